@@ -430,6 +430,15 @@ func (x *Exec) structGet(v *Term, ty *Ty, i int) *Term {
 	if v.Op == "mk_"+sn && len(v.Args) == len(ty.Struct.Fields) {
 		return v.Args[i]
 	}
+	if v.Op == "ite" && len(v.Args) == 3 {
+		// a struct value merged at a join: select the field in both branches
+		// (keeps the arithmetic about one field free of the others' case splits)
+		a, b := x.structGet(v.Args[1], ty, i), x.structGet(v.Args[2], ty, i)
+		if a == b || a.String() == b.String() {
+			return a
+		}
+		return Ite(v.Args[0], a, b)
+	}
 	f := ty.Struct.Fields[i]
 	return mk(sn+"_"+sanitize(f.Name), x.w.sortOf(f.Ty, x.model), v)
 }
